@@ -18,7 +18,7 @@ OPS = ["C 1 set a 1", "C 1 set a two words", "C 1 set b x", "C 1 remove a", "C 1
 
 def histories(tier, seed):
     H = []
-    L = 3 if tier == "quick" else 4
+    L = 3     # (length 4 would be 10 000 histories x 4 configurations, each with its own stub: the stub's HTTP handling is Python)
     for seq in itertools.product(OPS, repeat=L):
         if not any("SNAP" in x for x in seq): continue
         c = list(SETUP)
@@ -26,7 +26,7 @@ def histories(tier, seed):
         c += ["C 1 snapshot false", "SNAP", "RESTART"] + AFTER
         H.append(c)
     rng = core.XorShift(seed)
-    for _ in range(40 if tier == "quick" else 400):
+    for _ in range(40 if tier == "quick" else 1200):
         c = list(SETUP)
         for _ in range(4 + rng.below(10)): c += rng.choice(OPS).split("\n")
         c += ["C 1 snapshot false", "SNAP", "RESTART"] + AFTER
@@ -89,7 +89,7 @@ def oracle(case, out_s3, out_disk, stub_log, strategy, faults):
     if lost_upload: rs = []
     for i, ((snap, after, panic), (_, dafter, dpanic)) in enumerate(zip(rs, rd)):
         if panic and not dpanic:
-            fails.append(Failure("start-fails" + (":after-failed-transfer" if faulty else ""), f"restart {i}: the node does not start from the object store")); break
+            fails.append(Failure("start-fails", f"restart {i}: the node does not start from the object store")); break
         if after is None or dafter is None: continue
         a, b = live(after), live(dafter)
         for k in sorted(set(a) | set(b)):
@@ -98,7 +98,6 @@ def oracle(case, out_s3, out_disk, stub_log, strategy, faults):
             elif k not in b: cls = "removed-key-comes-back"
             elif a[k][0] != b[k][0]: cls = "value-differs-from-disk"
             else: cls = "version-differs-from-disk"
-            if faulty: cls += ":after-failed-transfer"
             fails.append(Failure(cls, f"restart {i}: key {k}: {strategy} gives {a.get(k)}, disk gives {b.get(k)}"))
         ida = [l for l in after if l.startswith("D db t ")]; idb = [l for l in dafter if l.startswith("D db t ")]
         if ida and idb and ida[0].split(" conns")[0] != idb[0].split(" conns")[0]:
